@@ -1,6 +1,7 @@
 # Copyright (c) Microsoft Corporation. All rights reserved.
 # Licensed under the MIT License.
 
+import re
 from typing import Dict, List, Optional, Tuple, Union
 
 from generator import model
@@ -290,10 +291,18 @@ def generate_special_types(model: model.LSPModel, types: TypeData) -> None:
                     prop_type = get_type_name(
                         property.type, types, model, property.optional
                     )
-                    if "SelectionRange" in prop_type:
-                        prop_type = prop_type.replace(
-                            "SelectionRange", "Box<SelectionRange>"
-                        )
+                    # Only the type itself is boxed, not a type whose name starts with it.
+                    prop_type = re.sub(
+                        r"\bSelectionRange\b", "Box<SelectionRange>", prop_type
+                    )
+                    serde_args = []
+                    if prop_name in RUST_KEYWORDS:
+                        prop_name = f"{prop_name}_"
+                        serde_args += [f'rename = "{property.name}"']
+                    if is_special_property(property) and not property.optional:
+                        serde_args += ['skip_serializing_if = "Option::is_none"']
+                    if serde_args:
+                        lines += [f"#[serde({', '.join(serde_args)})]"]
                     lines += [f"pub {prop_name}: {prop_type},"]
                     lines += [""]
                 lines += ["}"]
